@@ -43,8 +43,52 @@ def gen_box():
           "serialized (`brine.dump` refuses it after `_box` registered its by-reference objects), in the request direction",
           "(`_async_request`) and in the reply direction (`_dispatch_request`), the registrations are taken back. -/",
           "def failedSendReleases : Bool := %s" % ("true" if probe_failed_send() else "false")]
+    L += ["", "/-- observed on the live `Connection._unbox` (no I/O): when the round trip that fetches the class of a new proxy",
+          "(HANDLE_INSPECT) runs a nested dispatch that receives the SAME object, the outer `_unbox` ends up with that very",
+          "proxy (one proxy object, counted twice) instead of creating a second one over it. -/",
+          "def oneProxyAcrossInspect : Bool := %s" % ("true" if probe_one_proxy_across_inspect() else "false")]
     L += ["", "end Rpyc.Gen.Box", ""]
     return "\n".join(L)
+
+
+def probe_one_proxy_across_inspect():
+    from rpyc.core import consts
+    from rpyc.core.netref import BaseNetref
+    from rpyc.core.protocol import Connection
+    from rpyc.core.service import VoidService
+
+    class Chan(object):
+        closed = False
+
+        def close(self):
+            pass
+
+        def send(self, data):
+            pass
+    conn = Connection(VoidService(), Chan())
+    conn._closed = True
+    far = ("probe.Unseen", 5, 6)
+    nested = []
+
+    def inspect(handler, *args):
+        if handler != consts.HANDLE_INSPECT:
+            raise Inexpressible("_unbox issued request %r in the one-proxy probe" % (handler,))
+        if not nested:                      # what the nested serve() dispatches: a message with the same object
+            nested.append(None)
+            nested[0] = conn._unbox((consts.LABEL_REMOTE_REF, far))
+        return ()
+    conn.sync_request = inspect
+    try:
+        outer = conn._unbox((consts.LABEL_REMOTE_REF, far))
+    except Exception as ex:  # noqa
+        raise Inexpressible("_unbox raised %r in the one-proxy probe" % (ex,))
+    if not nested or not isinstance(outer, BaseNetref) or not isinstance(nested[0], BaseNetref):
+        raise Inexpressible("one-proxy probe: no nested round trip happened / no proxies came out")
+    same = outer is nested[0]
+    if same and object.__getattribute__(outer, "____refcount__") != 2:
+        raise Inexpressible("one-proxy probe: one proxy but it counts %r references" % (
+            object.__getattribute__(outer, "____refcount__"),))
+    return same
 
 
 def unsendable_value():
@@ -117,17 +161,19 @@ def probe_unbox_order():
     from rpyc.core.protocol import Connection
     from rpyc.core.service import VoidService
 
+    from rpyc.core.netref import BaseNetref
+
     class Chan(object):
         closed = False
 
         def close(self):
             pass
 
+        def send(self, data):
+            pass
+
     class Target(object):
         pass
-
-    class Proxy(object):
-        ____refcount__ = 1
 
     results = []
     key = ("probe.Target", 1, 2)
@@ -158,13 +204,15 @@ def probe_unbox_order():
             def clear(self):
                 pass
         conn._local_objects = Table()
-        keep = []
 
-        def factory(id_pack):
+        def inspect(handler, *args):
+            # the round trip `_unbox` makes to learn the class of an object it has no proxy class for: the moment a
+            # nested serve() could run
+            if handler != consts.HANDLE_INSPECT:
+                raise Inexpressible("_unbox issued request %r in the order probe" % (handler,))
             events.append("create")
-            keep.append(Proxy())
-            return keep[-1]
-        conn._netref_factory = factory
+            return ()
+        conn.sync_request = inspect
         try:
             out = conn._unbox(package)
         except Exception as ex:  # noqa
@@ -178,7 +226,7 @@ def probe_unbox_order():
             else:
                 flat.append(v)
         walk(out)
-        if target not in flat or not any(isinstance(x, Proxy) for x in flat) or sorted(events) != ["create", "lookup"]:
+        if not any(x is target for x in flat) or not any(isinstance(x, BaseNetref) for x in flat) or sorted(events) != ["create", "lookup"]:
             raise Inexpressible("_unbox order probe: unexpected result %r / events %r" % (out, events))
         results.append(events == ["lookup", "create"])
     # the constant says "for every package shape"; lookups-first for some shapes only is a plain "no"
